@@ -334,15 +334,39 @@ func (h *c15Run) stepUpdateUser(r *RNG, p *c15Pool, step int) {
 	// for the direct monitors of a single-record request: state before
 	var prevHash string
 	var existed bool
+	var ontoSrc, ontoDst *hotline.Account // a rename whose target login exists (must be refused, both survive)
 	if n == 1 {
 		if a := h.ts.Acct.Get(string(recs[0].src)); a != nil {
 			prevHash, existed = a.Password, true
+			if recs[0].kind == "rename" && string(recs[0].src) != string(recs[0].dst) {
+				if d := h.ts.Acct.Get(string(recs[0].dst)); d != nil {
+					ontoSrc, ontoDst = a, d
+				}
+			}
 		}
 	}
 	res, _, pn := h.ts.Call(h.cc, mkTran(hotline.TranUpdateUser, uint32(step), fields...))
 	o := classify(res, pn)
 	h.obs(tok, fmt.Sprintf("step %d update-user %s", step, kinds), o)
 	h.c.Dist("update-user/" + fmt.Sprint(n) + "/" + o)
+	if ontoSrc != nil {
+		h.c.Dist("rename-onto-existing/" + o)
+		for _, before := range []*hotline.Account{ontoSrc, ontoDst} {
+			now := h.ts.Acct.Get(before.Login)
+			_, statErr := os.Stat(h.ts.Users + "/" + before.Login + ".yaml")
+			if now == nil || viewOf(*now) != viewOf(*before) || statErr != nil {
+				h.c.Note("src", hx([]byte(ontoSrc.Login)))
+				h.c.Note("dst", hx([]byte(ontoDst.Login)))
+				h.c.Note("history", strings.Join(h.toks, " "))
+				h.c.Violation("rename-onto-existing-login", fmt.Sprintf("renaming %q onto the existing login %q changed or destroyed account %q", ontoSrc.Login, ontoDst.Login, before.Login))
+			}
+			for _, pw := range append([][]byte{{}}, h.pws[before.Login]...) {
+				if h.cc.Authenticate(before.Login, pw) != h.verifies(before.Password, pw) {
+					h.c.Violation("rename-onto-existing-login", fmt.Sprintf("after the refused rename login %q accepts other passwords than before", before.Login))
+				}
+			}
+		}
+	}
 	if o == "done" {
 		h.nDone++
 		h.nMut++
@@ -391,8 +415,8 @@ func init() {
 			"the requesting administrator holds every account privilege and is not itself edited by the history (authorisation is C05/C06)",
 			"update-user sub-records are well-formed field lists (count + fields)",
 		}
-		x.Add(&Family{Name: "histories", Quick: 400, Thor: 2500, Run: func(c *Case) { c15History(c, 0) }})
-		x.Add(&Family{Name: "rename-chains", Quick: 100, Thor: 600, Run: func(c *Case) { c15History(c, 1) }})
+		x.Add(&Family{Name: "histories", Quick: 300, Thor: 2500, Run: func(c *Case) { c15History(c, 0) }})
+		x.Add(&Family{Name: "rename-chains", Quick: 80, Thor: 600, Run: func(c *Case) { c15History(c, 1) }})
 		x.Add(&Family{Name: "long-logins", Quick: 32, Thor: 200, Run: c15LongLogins})
 		x.Add(&Family{Name: "yaml-unsafe-strings", Quick: 20, Thor: 100, Run: c15YamlUnsafe})
 	}
